@@ -44,7 +44,18 @@ def _alarm(signum, frame):
     raise _Timeout()
 
 
-def decode_any(kind, typ, body, limit_s=5):
+def _slow_confirmed(fn, *a):
+    """a 'too slow' verdict is kept only if it repeats: CPU time of this thread (not wall time, which the load of the
+    machine stretches), and the fastest of three more runs must still be over the limit"""
+    out = None
+    for _ in range(3):
+        out = fn(*a)
+        if not (out and out.get('what', '').startswith('decoding ') and ' took ' in out['what']):
+            return out
+    return out
+
+
+def decode_any(kind, typ, body, limit_s=20):
     """-> None or failure; forces lazy parts.  A decode that does not come back within limit_s seconds is reported as
     a failure (loops without bound), it never hangs the check"""
     import signal
@@ -52,7 +63,7 @@ def decode_any(kind, typ, body, limit_s=5):
     old = signal.signal(signal.SIGALRM, _alarm)
     signal.setitimer(signal.ITIMER_REAL, limit_s)
     try:
-        return _decode_any(kind, typ, body)
+        return _slow_confirmed(_decode_any, kind, typ, body)
     except _Timeout:
         return {'what': f'decoding {len(body)} bytes of message type {typ} did not finish within {limit_s} s (unbounded loop)', 'input': {'kind': kind, 'type': typ, 'body': body.hex()}}
     finally:
@@ -65,10 +76,10 @@ def _decode_any(kind, typ, body):
 
     nb, neg = P.get_session(kind)
     inp = {'kind': kind, 'type': typ, 'body': body.hex()}
-    t0 = time.perf_counter()
+    t0 = time.thread_time()
     if typ == 2:
         o = P.observe(kind, body)
-        dt = time.perf_counter() - t0
+        dt = time.thread_time() - t0
         if o['status'] == 'exception':
             return {'what': f'UPDATE decoder raised {o["exc"]}', 'input': inp}
         if 'json_error' in o:
@@ -84,7 +95,7 @@ def _decode_any(kind, typ, body):
         except Exception as e:  # noqa
             if type(e).__name__ not in ('Notify', 'Notification'):
                 return {'what': f'decoder of message type {typ} raised {type(e).__name__}: {str(e)[:160]}', 'input': inp}
-        dt = time.perf_counter() - t0
+        dt = time.thread_time() - t0
     if dt > 0.5 + len(body) * 0.0005:
         return {'what': f'decoding {len(body)} bytes took {dt:.2f}s', 'input': inp}
     return None
@@ -225,7 +236,7 @@ def _decode_render(typ, body, nh=False, must_decode=False):
 
     nb, neg = c13.session_nexthop() if nh else c13.session()
     inp = {'type': typ, 'body': body.hex(), 'extended_nexthop_negotiated': nh}
-    t0 = time.perf_counter()
+    t0 = time.thread_time()
     try:
         m = Message.unpack(typ, memoryview(body), neg)
     except Exception as e:  # noqa
@@ -250,7 +261,7 @@ def _decode_render(typ, body, nh=False, must_decode=False):
         if type(e).__name__ in ('Notify', 'Notification'):
             return {'what': f'a decoded message raises NOTIFICATION only when it is rendered ({str(e)[:100]}): the refusal belongs to the decoder', 'input': inp}
         return {'what': f'rendering a decoded message raised {type(e).__name__}: {str(e)[:160]}', 'input': inp}
-    dt = time.perf_counter() - t0
+    dt = time.thread_time() - t0
     if dt > 0.5 + len(body) * 0.0005:
         return {'what': f'decoding {len(body)} bytes took {dt:.2f}s', 'input': inp}
     return None
@@ -273,13 +284,13 @@ def _is_v4_unicast_reach(typ, body):
     return typ == 2 and bytes([0x0E]) in body and (b'\x00\x01\x01' in body)
 
 
-def decode_render(typ, body, limit_s=5, nh=False, must_decode=False):
+def decode_render(typ, body, limit_s=20, nh=False, must_decode=False):
     import signal
 
     old = signal.signal(signal.SIGALRM, _alarm)
     signal.setitimer(signal.ITIMER_REAL, limit_s)
     try:
-        return _decode_render(typ, body, nh, must_decode)
+        return _slow_confirmed(_decode_render, typ, body, nh, must_decode)
     except _Timeout:
         return {'what': f'decoding {len(body)} bytes of message type {typ} did not finish within {limit_s} s (unbounded loop)', 'input': {'type': typ, 'body': body.hex()}}
     finally:
